@@ -13,8 +13,11 @@ PARTIAL = {
            "L/K monotonicity is proved for the iterative LTF/LPSD plans and checked by the oracle for the other two schedulers",
     "C06": "PARTIAL: the calibration bound is proved in closed form for every detrend order (-1, 0, and 1-2 for any basis Q: r = rho + 2 sum_k rho_k); "
            "how small the leakage terms rho, rho_k are for the Kaiser window is C12's numeric residual (measured, not proved)",
-    "C10": "PARTIAL: every functional form, inequality and limit is proved; the sentence 'match the observed spread for Gaussian data' is statistical and only probed (thorough tier, cannot alarm)",
-    "C11": "PARTIAL: all formulas proved; 'agree with the analytic deviations for Gaussian noise' is statistical and only probed",
+    "C10": "PARTIAL: every functional form, inequality and limit is proved; the sentence 'match the observed spread for Gaussian data' is proved under an explicit statistical model "
+           "(Props/StatModel: K pairwise independent periodogram values of mean mu and variance mu^2, the chi^2_2 law, satisfiable: the generated reducer's estimate is unbiased and the generated Gxx_dev "
+           "IS its standard deviation, Gxx_error its relative one); for overlapping segments the independence hypothesis fails and the sentence is only probed (thorough tier, cannot alarm)",
+    "C11": "PARTIAL: all formulas proved; 'agree with the analytic deviations for Gaussian noise' is proved under an explicit model (Props/StatModel: pairwise uncorrelated per-segment products with common mean and "
+           "variance sigma^2: E[XY_emp_var] = (K-1)/K * Var(mean), i.e. the variance of the mean up to the stated bias factor); for overlapping segments the hypothesis fails and the sentence is only probed",
     "C12": "PARTIAL: leakage is reduced by theorem to a bound on the window transform (exact sinusoid response, DFT-even non-negative window, Goertzel at fractional bins); "
            "the numeric side-lobe bound of the sampled Kaiser window itself is NOT a theorem and is measured on the real single-bin path",
     "C18": "PARTIAL: section/cascade closed form, Hermitian synthesis, band mask proved; the '~1 dB' ripple sentence is an approximation-theory bound that is measured, not proved",
